@@ -16,7 +16,8 @@ LEVEL_TEXT = ("Proof + correspondence: Coq theorems, for all glyph sets (non-sin
               "Compiled OTF/TTF with and without skipping are compared directly (order, cmap, hmtx, contour multisets). Designspace "
               "builds (list given by the designspace lib; by argument / UFO libs for compileInterpolatableTTFs) are observed: the "
               "variable font built with skipping is instantiated at every source location -- including sparse layer masters that "
-              "only the skipped component has -- and each remaining glyph must render like in the build with nothing skipped.")
+              "only the skipped component has -- and each remaining glyph must render like in the build with nothing skipped."
+              " The variation-sequence loop of setupTable_cmap as translated from /repo's source (Generated/Imp.v, Order/UvsTied.v) names glyphs of the compiled glyph set only (theorem about the translated code).")
 LEVEL_NOTE = ("Trusted: Coq kernel, hand model of the filter pen (correspondence-tested, exact), harness. TrueType binaries are "
               "compared on order/cmap/hmtx only (composite vs inlined rounding differs inherently, DESIGN C13); the interpolatable "
               "variant of the filter (sparse masters, interpolated layers) is observed, not modelled; generated kerning/marks on "
